@@ -93,7 +93,7 @@ CHECKS = {
     "C09": {
         "level": "exploration",
         "quick": {"shards": 16, "rounds": 1, "checks": 2500, "timeout": 900},
-        "thorough": {"shards": 16, "rounds": 10, "checks": 3000, "timeout": 3000},
+        "thorough": {"shards": 16, "rounds": 7, "checks": 3000, "timeout": 3000},
         "assumptions": [
             "log written through the pkg/wal API by one goroutine, no I/O faults, no damage (damage is C10)",
             "rotation hands the sequence counter over (UpdateNextSequence), the intended regime of unique growing numbers",
